@@ -38,6 +38,8 @@ def gen(rng, tier, idx):
                         "w_mark": 10 if marks else 0, "w_flush": 4, "w_filler": 3, "w_kernel": 5 if "kernel" in models else 0,
                         "w_idle": 6, "tight": 40 + rk.below(50), "maxdepth": rk.choice([2, 4, 8])})
     n = rk.choice([20, 60, 150, 400])
+    if idx % 300 == 177:
+        n = rk.choice([3000, 6000])     # marathon: long-lived emulator state (callbacks, stacks, output buffers)
     for i in range(n):
         g.step()
     g.finish()
